@@ -438,3 +438,39 @@ pub fn position_features(p: &Pos, legal: &[Mv]) -> Vec<&'static str> {
     }
     f
 }
+
+/// "Queen storm": a legal position with many mutually attacking queens (and a few other pieces)
+/// and both kings tucked away behind their own men, so that capture sequences explode.
+pub fn queen_storm_position(rng: &mut Rng) -> Pos {
+    loop {
+        let mut p = Pos::empty();
+        // white king a1 behind a2,b1,b2 ; black king h8 behind g8,h7,g7
+        p.sq[0] = Some((Color::White, Kind::King));
+        for s in [8u8, 1, 9] {
+            p.sq[s as usize] = Some((Color::White, *rng.pick(&[Kind::Pawn, Kind::Knight, Kind::Queen, Kind::Rook])));
+        }
+        p.sq[1] = Some((Color::White, *rng.pick(&[Kind::Knight, Kind::Queen, Kind::Rook])));
+        p.sq[63] = Some((Color::Black, Kind::King));
+        for s in [55u8, 62, 54] {
+            p.sq[s as usize] = Some((Color::Black, *rng.pick(&[Kind::Pawn, Kind::Knight, Kind::Queen, Kind::Rook])));
+        }
+        p.sq[62] = Some((Color::Black, *rng.pick(&[Kind::Knight, Kind::Queen, Kind::Rook])));
+        let n = rng.range(10, 22);
+        for _ in 0..n {
+            let s = rng.below(64) as usize;
+            if p.sq[s].is_some() {
+                continue;
+            }
+            let c = if rng.chance(1, 2) { Color::White } else { Color::Black };
+            let k = *rng.pick(&[Kind::Queen, Kind::Queen, Kind::Queen, Kind::Rook, Kind::Knight, Kind::Bishop]);
+            if p.count(c, Kind::Queen) >= 9 && k == Kind::Queen {
+                continue;
+            }
+            p.sq[s] = Some((c, k));
+        }
+        p.stm = if rng.chance(1, 2) { Color::White } else { Color::Black };
+        if is_legal_position(&p) && has_legal_move(&p) && !in_check(&p, p.stm) {
+            return p;
+        }
+    }
+}
